@@ -28,7 +28,8 @@ def fl(m):
 
 def labelings(n):
     return {"strings": [f"l{i}" for i in range(1, n + 1)], "ints-mixed": [3 * v + 1 for v in [5, 2, 9, 1, 7, 3, 8, 4, 6, 10, 12, 11, 14, 13][:n]],
-            "reversed": [f"z{n - i}" for i in range(n)]}
+            "reversed": [f"z{n - i}" for i in range(n)],
+            "ints-with-zero": ([5, 0, 2, 9, 4, 7, 1, 8, 3, 6, 11, 10][:n] if n >= 2 else [0])}       # a falsy label that is not the first level
 
 
 def make(o, levels):
@@ -112,7 +113,7 @@ def replay_matrix(case):
             chk("columns sum to zero", o["name"] in ("treatment", "sas") or n == 1 or close(cm.values.sum(axis=0), numpy.zeros(n - 1)))
         except Exception as e:  # noqa
             bad.append({**base, "why": "exception", "observed": type(e).__name__ + ": " + str(e)[:150]})
-    return bad, 3
+    return bad, 4
 
 
 def replay_poly(case):
